@@ -881,3 +881,32 @@ def report_error_count(ex, st, r):
         return SV(z3.FreshConst(IntS, 'not_a_report'), INT)
     lst = Val.addr(ex.H(st, 'La.V')[ex.term(r, 'R')][1])
     return SV(ex.H(st, 'Ll')[lst], INT)
+
+
+@specfunc('ec_of')
+def ec_of(ex, st, el):
+    """the encoding characters an element works with (C07): those of its parent, else of its temporary (traversal)
+    parent, else - for a Message - the message's own (msg_ec), else the defaults of its version.  An uninterpreted
+    function of the link / version / class arrays and the address, introduced by its one-step unfolding at the address
+    asked (and at its two possible predecessors' addresses one more step is available by asking again)."""
+    a = ex.term(el, 'R')
+    par = ex.H(st, ex.world.field_key('Element', '_parent'))
+    tp = ex.H(st, ex.world.field_key('Element', '_traversal_parent'))
+    ver = ex.H(st, ex.world.field_key('Element', 'version'))
+    cls = ex.H(st, 'cls')
+    d27 = ex.H(st, 'g.hl7apy:_DEFAULT_ENCODING_CHARS_27')
+    d = ex.H(st, 'g.hl7apy:_DEFAULT_ENCODING_CHARS')
+    f = ex.uf('ec_of', par.sort(), tp.sort(), ver.sort(), cls.sort(), IntS, IntS, IntS, IntS)
+    m = ex.uf('msg_ec', IntS, IntS)
+    mid = ex.world.cid('Message')
+
+    def app(x):
+        return f(par, tp, ver, cls, d27, d, x)
+    v = ver[a]
+    dflt = z3.If(z3.And(z3.Length(v) > 0, z3.Not(v < z3.StringVal('2.7'))), d27, d)
+    unfold = z3.If(cls[a] == mid, m(a),
+                   z3.If(par[a] != 0, app(par[a]), z3.If(tp[a] != 0, app(tp[a]), dflt)))
+    _fact(ex, app(a) == unfold)
+    if getattr(ex, 'spec_facts', None) is not None:
+        ex.spec_facts.extend(ex.type_facts(st, app(a), DictT(STR)))
+    return SV(app(a), DictT(STR))
